@@ -122,11 +122,12 @@ def run_stream(ctx, r, idx):
 
 def all_functions(cls):
 	import types
-	return [k for k, v in vars(cls).items() if isinstance(v, types.FunctionType)]
+	# (not __del__: a finaliser runs wherever the garbage collector happens to, also inside the harness's own critical sections)
+	return [k for k, v in vars(cls).items() if isinstance(v, types.FunctionType) and k != "__del__"]
 
 
-def make_sched(ctx):
-	sc = sched.Sched("line")
+def make_sched(ctx, gran = "line"):
+	sc = sched.Sched(gran)
 	for cls in (sim.fake_trx.FakeTRX, sim.transceiver.Transceiver, sim.burst_fwd.BurstForwarder):
 		for name in all_functions(cls):
 			sc.watch(cls, name)
@@ -216,8 +217,8 @@ def trxc_status(d):
 	return None if r is None else r[1]
 
 
-def racing_commands(ctx, r):
-	sc = make_sched(ctx)
+def racing_commands(ctx, r, gran = "line"):
+	sc = make_sched(ctx, gran)
 	sc.install()
 	distinct = set()
 	try:
@@ -236,7 +237,7 @@ def racing_commands(ctx, r):
 				ctx.violation("racing-command", {"config": cfg, "switches": []}, what = err)
 				return
 			n = info["points"]
-			ctx.count("race_decision_points", n)
+			ctx.count("race_decision_points:" + gran, n)
 			if n < 5:
 				ctx.inconclusive_because("scheduler saw only %d decision points" % n)
 				return
@@ -247,13 +248,17 @@ def racing_commands(ctx, r):
 				err, info = race_case(ctx, sc, cfg, st, sw)
 				if err == "deadlock":
 					err, info = race_case(ctx, sc, cfg, st, sw)
+				if err == "deadlock":
+					# a wall-clock watchdog fired twice: not a verdict on the property
+					ctx.inconclusive_because("controlled run hung twice (schedule %r of %r)" % ((st, sw), cfg))
+					return
 				ctx.count("race_schedules_run")
-				key = (cfg, st, tuple(info["trace"]) if info else None)
+				key = (gran, cfg, st, tuple(info["trace"]) if info else None)
 				distinct.add(key)
 				ctx.seen(hash(key))
 				if err:
 					ctx.violation("racing-command", {"config": {"pending": cfg[0], "new": cfg[1], "period": cfg[2], "versions": cfg[3]},
-						"start_thread": ("socket", "clock")[st], "switches": sw, "executed_switches": info["trace"] if info else None},
+						"granularity": gran, "start_thread": ("socket", "clock")[st], "switches": sw, "executed_switches": info["trace"] if info else None},
 						what = "FAKE_DROP served while a burst is being delivered: " + err)
 					return
 				if ctx.time_left() < 0:
@@ -267,7 +272,7 @@ def run(ctx):
 	ctx.rule = ("streams of 50-400 bursts (consecutive, jittering and arbitrary frame numbers) through real FakeTRX pairs/triples in all "
 		"version combinations with FAKE_DROP n [period] (n 0..50, period 1..60), rejected FAKE_DROP forms, RFMUTE and SETFORMAT between "
 		"bursts; each (burst, recipient) outcome compared with the counter model; a FAKE_DROP served by the socket thread while the "
-		"clock thread delivers a burst, under a baton scheduler at line granularity (every single preemption point, random multi-switch "
+		"clock thread delivers a burst, under a baton scheduler at line granularity and at CPython's own switch points (every single preemption point, random multi-switch "
 		"schedules): the outcome must be that of one of the two orders; distinct = distinct (stream, burst, recipient) and executed "
 		"switch traces; all non-trivial")
 	ctx.assume("where RF mute and a pending drop budget overlap, both budget outcomes are accepted (the statement is silent)")
@@ -278,7 +283,9 @@ def run(ctx):
 		if ctx.too_many() or ctx.time_left() < 0:
 			break
 	ctx.current_case = None
-	racing_commands(ctx, r)
+	import os
+	for gran in os.environ.get("VERIF_GRAN", "line,switch").split(","):
+		racing_commands(ctx, r, gran)
 	ctx.require("race_schedules_run", 200)
 	ctx.require("outcomes_checked", 5000)
 	ctx.require("expected:nope:drop", 200)
